@@ -61,6 +61,7 @@ var (
 	failKind string
 	failAt   int
 	failCnt  = map[string]int{}
+	opCnt    = map[string]int{}
 	killAt   = -1
 	killT    = -1
 	Failed   bool // set when the injected fault fired
@@ -107,6 +108,23 @@ func SetFail(spec string) {
 	failAt, _ = strconv.Atoi(parts[1])
 }
 
+// OpCounts returns how many tracked operations of every kind were attempted since ResetCounts.
+func OpCounts() map[string]int {
+	mu.Lock()
+	defer mu.Unlock()
+	c := map[string]int{}
+	for k, v := range opCnt {
+		c[k] = v
+	}
+	return c
+}
+
+func ResetCounts() {
+	mu.Lock()
+	opCnt = map[string]int{}
+	mu.Unlock()
+}
+
 // SetKillAt arms a process kill at journal position k (t bytes of a write applied first; t<0: none).
 func SetKillAt(k, t int) {
 	mu.Lock()
@@ -149,6 +167,7 @@ func before(kind string, path string) error {
 	if killAt >= 0 && len(journal) == killAt && kind != "write" {
 		realos.Exit(137)
 	}
+	opCnt[kind]++
 	if failKind == kind {
 		failCnt[kind]++
 		if failCnt[kind] == failAt {
